@@ -310,4 +310,118 @@ theorem control_injective {i j : Nat} (h : control i = control j) : i = j := by
   unfold control at h
   exact digits_injective (List.append_cancel_left h)
 
+/-! ### the client side -/
+
+theorem contentBase_eq (su : Url) : contentBase su = su.toStr ++ [47] := by
+  unfold contentBase
+  have : ofString Facts.Url.contentBaseSuffix = [47] := by decide
+  rw [this]
+
+theorem restore_user {u : Url} (h : WF u) : { u.withoutCredentials with user := u.user } = u := by
+  have ho := h.noOmit
+  obtain ⟨sch, usr, hst, pth, ep, fq, q, oh⟩ := u
+  simp at ho; subst ho; rfl
+
+/-- the client's base URL when the server answered DESCRIBE with `Content-Base: <request URL>/` -/
+theorem findBaseURL_contentBase {u : Url} (h : WF u) :
+    findBaseURL none (some [contentBase u.withoutCredentials]) u = some (extend u [47]) := by
+  have hw := h.withoutCredentials
+  obtain ⟨r, hr⟩ := toStr_head hw
+  unfold findBaseURL
+  simp only [Option.filter_none, contentBase_eq]
+  have hpre : hasPrefix [47] (u.withoutCredentials.toStr ++ [47]) = false := by
+    rw [hr]; simp [hasPrefix, List.isPrefixOf]
+  rw [hpre]
+  simp only [Bool.false_eq_true, if_false]
+  rw [parse_toStr_append hw slash_plain (by simp)]
+  simp only
+  rw [extend_user, restore_user h]
+
+theorem mediaURL_contentBase {u : Url} (h : InScope u) (n : Nat) :
+    mediaURL (control n) (some (extend u [47])) = .url (extend u (trackTag ++ digits n)) := by
+  have hb := h.wf.extend slash_plain (by simp)
+  unfold mediaURL
+  simp only [control_ne_nil n, if_false, control_not_absolute n, Bool.false_eq_true]
+  have hs : endsWithSlash (extend u [47]).toStr = true := by
+    rw [toStr_extend h.wf slash_plain (by simp)]; exact endsWithSlash_snoc _
+  simp only [hs, Bool.not_true, Bool.and_false, Bool.false_eq_true, if_false]
+  rw [parse_toStr_append hb (control_plain n) (control_ne_nil n), extend_extend _ _ (by simp), slash_control]
+
+theorem mediaURL_self {u : Url} (h : InScope u) (n : Nat) :
+    mediaURL (control n) (some u) = .url (extend u (trackTag ++ digits n)) := by
+  unfold mediaURL
+  simp only [control_ne_nil n, if_false, control_not_absolute n, Bool.false_eq_true]
+  simp only [h.toStr_noSlash, control_head n]
+  have : (some (116 : UInt8) != some 63 && some (116 : UInt8) != some 47 && !false) = true := by decide
+  simp only [this, if_true]
+  rw [List.append_assoc, slash_control,
+    parse_toStr_append h.wf (by rw [List.all_append, digits_plain, trackTag_eq]; decide) (by rw [trackTag_eq]; simp)]
+
+theorem mediaURL_self_slash {u : Url} (h : InScope u) (n : Nat) :
+    mediaURL (47 :: control n) (some u) = .url (extend u (trackTag ++ digits n)) := by
+  have hna : isAbsoluteControl (47 :: control n) = false := by
+    have h1 : pfxRTSP = 114 :: [116, 115, 112, 58, 47, 47] := by decide
+    have h2 : pfxRTSPS = 114 :: [116, 115, 112, 115, 58, 47, 47] := by decide
+    unfold isAbsoluteControl hasPrefix
+    rw [h1, h2]; simp [List.isPrefixOf]
+  unfold mediaURL
+  simp only [hna, Bool.false_eq_true, if_false]
+  have : ((47 : UInt8) :: control n = []) = False := by simp
+  simp only [this, if_false, List.head?_cons]
+  have : (some (47 : UInt8) != some 63 && some (47 : UInt8) != some 47 && !endsWithSlash u.toStr) = false := by
+    simp
+  simp only [this, Bool.false_eq_true, if_false]
+  have e : (47 : UInt8) :: control n = trackTag ++ digits n := slash_control n
+  rw [e, parse_toStr_append h.wf (by rw [List.all_append, digits_plain, trackTag_eq]; decide) (by rw [trackTag_eq]; simp)]
+
+/-! ### media lookup when recording -/
+
+/-- which announced control a recording SETUP URL matches: exactly the one it was built from -/
+theorem mediaMatches_control {u : Url} (h : InScope u) (hq : u.forceQuery = false) (i j : Nat) :
+    mediaMatches (control j) u.path u.rawQuery (extend u.withoutCredentials (trackTag ++ digits i)) = decide (j = i) := by
+  unfold mediaMatches
+  simp only [control_not_absolute j, Bool.false_eq_true, if_false]
+  unfold Rtsp.Url.extend hasQ
+  by_cases hr : u.rawQuery = []
+  · -- no query: the control continues the path
+    have hne : (u.rawQuery != []) = false := by simp [hr]
+    simp only [Url.withoutCredentials, hq, hr, List.isEmpty_nil, Bool.not_true, Bool.or_false, Bool.false_eq_true, if_false, hne]
+    have e : u.path ++ (trackTag ++ digits i) = u.path ++ [47] ++ control i := by
+      rw [List.append_assoc, slash_control]
+    rw [e]
+    by_cases hji : j = i
+    · subst hji; simp
+    · have : control j ≠ control i := fun e => hji (control_injective e)
+      simp [hji, this]
+  · have hne : (u.rawQuery != []) = true := by simp [hr]
+    have hemp : (!u.rawQuery.isEmpty) = true := by cases hq' : u.rawQuery <;> simp_all
+    simp only [Url.withoutCredentials, hq, hemp, Bool.or_true, if_true, hne]
+    have e : u.rawQuery ++ (trackTag ++ digits i) = u.rawQuery ++ [47] ++ control i := by
+      rw [List.append_assoc, slash_control]
+    rw [e]
+    have hlen : (u.path ++ [47] ++ control j == u.path) = false := by
+      cases hh : (u.path ++ [47] ++ control j == u.path) with
+      | false => rfl
+      | true =>
+        have := congrArg List.length (eq_of_beq hh)
+        simp at this
+    by_cases hji : j = i
+    · subst hji; simp
+    · have : control j ≠ control i := fun e => hji (control_injective e)
+      simp [hji, this, hlen]
+
+theorem findMediaByURL_controls {u : Url} (h : InScope u) (hq : u.forceQuery = false) {k i : Nat} (hi : i < k) :
+    findMediaByURL ((List.range k).map control) u.path u.rawQuery
+      (extend u.withoutCredentials (trackTag ++ digits i)) = some i := by
+  unfold findMediaByURL
+  have hlen : ((List.range k).map control).length = k := by simp
+  have hidx : ((List.range k).map control).findIdx
+      (fun c => mediaMatches c u.path u.rawQuery (extend u.withoutCredentials (trackTag ++ digits i))) = i := by
+    rw [List.findIdx_eq (by rw [hlen]; exact hi)]
+    constructor
+    · simp [mediaMatches_control h hq]
+    · intro j hj
+      simp [mediaMatches_control h hq]; omega
+  simp only [hidx, hlen, hi, if_true]
+
 end Rtsp.Url
